@@ -84,7 +84,7 @@ def parseSpec (st : Store) (s : String) : Option Scalar :=
 def tyCode : Ty → String
   | .int => "I" | .float => "F" | .str => "S" | .typ => "T" | .ref => "r" | .box => "b" | .raw k => toString k
 
-/-- element / key / value type codes: Int, String, Float (not as a key), and the plain-struct probe types by their digit -/
+/-- element / key / value type codes: Int, String, Float, and the plain-struct probe types by their digit -/
 def parseTy (s : String) (allowFloat : Bool) : Option Ty :=
   if s = "I" then some .int else if s = "S" then some .str else if s = "F" && allowFloat then some .float
   else match s.toList with
@@ -212,7 +212,52 @@ def remFirst (p : α → Bool) : List α → Option (List α)
   | [] => none
   | x :: xs => if p x then some xs else (remFirst p xs).map (x :: ·)
 
+/-- the machine's doubles, through Lean's `Float` (opaque to the kernel) -/
+def hwOps : FOps where
+  sub a b := (Float.ofBits a - Float.ofBits b).toBits
+  add a b := (Float.ofBits a + Float.ofBits b).toBits
+  mul a b := (Float.ofBits a * Float.ofBits b).toBits
+  neg a := (-(Float.ofBits a)).toBits
+  fabs a := (Float.ofBits a).abs.toBits
+  fmax a b := if (Float.ofBits a).isNaN then b else if (Float.ofBits b).isNaN then a else if Float.ofBits a < Float.ofBits b then b else a
+  fmin a b := if (Float.ofBits a).isNaN then b else if (Float.ofBits b).isNaN then a else if Float.ofBits b < Float.ofBits a then b else a
+  lt a b := decide (Float.ofBits a < Float.ofBits b)
+  le a b := decide (Float.ofBits a ≤ Float.ofBits b)
+  eq a b := Float.ofBits a == Float.ofBits b
+
+def sameDouble (x y : UInt64) : Bool := x == y || (floatIsNaN x && floatIsNaN y)
+
+/-- for a pair of doubles the op file compares: (does `Float_Cmp` as extracted, run on the machine's doubles, differ from the
+    bit-level decision of the model?, does the exact arithmetic `sfOps` differ from the machine — on the extracted program, on
+    `a - b`, `b - a`, `a * b` and on ε·max(|a|,|b|)?) -/
+def floatPairCheck (a b : UInt64) : Bool × Bool :=
+  let hw := floatCmpSrc hwOps a b
+  let sf := floatCmpSrc sfOps a b
+  let eps : UInt64 := 0x3cb0000000000000
+  let opsOk := sameDouble (sfOps.sub a b) (hwOps.sub a b) && sameDouble (sfOps.sub b a) (hwOps.sub b a) &&
+    sameDouble (sfOps.mul a b) (hwOps.mul a b) &&
+    sameDouble (sfOps.mul eps (sfOps.fmax (sfOps.fabs a) (sfOps.fabs b))) (hwOps.mul eps (hwOps.fmax (hwOps.fabs a) (hwOps.fabs b))) &&
+    sfOps.lt a b == hwOps.lt a b && sfOps.le a b == hwOps.le a b && sfOps.eq a b == hwOps.eq a b
+  (hw != floatCmp a b, sf != hw || !opsOk)
+
+def floatPairs (st : Store) (a b : Val) : List (UInt64 × UInt64) :=
+  match a, b with
+  | .sc (.float x), .sc (.float y) => [(x, y)]
+  | _, _ =>
+    match seqItems st a, seqItems st b with
+    | some xs, some ys => (xs.zip ys).filterMap fun p => match p.1, p.2 with | .float x, .float y => some (x, y) | _, _ => none
+    | _, _ =>
+      match mapEntries a, mapEntries b with
+      | some xs, some ys => (xs.zip ys).filterMap fun p => match p.1.1, p.2.1 with | .float x, .float y => some (x, y) | _, _ => none
+      | _, _ => []
+
 structure Stats where
+  floatPairs : Nat := 0       -- pairs of doubles on which the extracted `Float_Cmp` was run with the machine's arithmetic
+  floatSrcNeModel : Nat := 0  -- … and gave another result than the bit-level `floatCmp` of the model
+  floatSfNeHw : Nat := 0      -- … or the exact arithmetic `sfOps` disagreed with the machine
+  floatNear : Nat := 0        -- pairs of distinct non-NaN doubles at most 4 ulp apart (or the two zeros)
+  selfAssigns : Nat := 0
+  lookups : Nat := 0
   eqPairs : Nat := 0
   eqZero : Nat := 0
   copies : Nat := 0
@@ -275,7 +320,7 @@ def step (st : Store) (stats : Stats) (toks : List String) : IO (Store × Stats)
       match specs with
       | [] => bad
       | vtyS :: pairs =>
-        match parseId ids, parseCls cls false, parseTy ety false, parseTy vtyS true with
+        match parseId ids, parseCls cls false, parseTy ety true, parseTy vtyS true with
         | some id, some c, some kt, some vt =>
           if isLive st id || pairs.length % 2 ≠ 0 then bad else
           match pairs.mapM (parseSpec st) with
@@ -342,7 +387,15 @@ def step (st : Store) (stats : Stats) (toks : List String) : IO (Store × Stats)
           let c := valCmp addr st ox.val oy.val
           let ha := hashStr st ox.val; let hb := hashStr st oy.val
           let ptr := hasPtr st ox.val || hasPtr st oy.val
-          let stats := { stats with eqPairs := stats.eqPairs + 1, eqZero := stats.eqZero + (if c = some 0 then 1 else 0) }
+          let fps := (floatPairs st ox.val oy.val).take 8
+          let chk := fps.map fun p => floatPairCheck p.1 p.2
+          let near := fps.filter fun p => p.1 != p.2 && !floatIsNaN p.1 && !floatIsNaN p.2 &&
+            (floatKey p.1 - floatKey p.2).natAbs ≤ 4
+          let stats := { stats with eqPairs := stats.eqPairs + 1, eqZero := stats.eqZero + (if c = some 0 then 1 else 0),
+                                    floatPairs := stats.floatPairs + fps.length,
+                                    floatSrcNeModel := stats.floatSrcNeModel + (chk.filter (·.1)).length,
+                                    floatSfNeHw := stats.floatSfNeHw + (chk.filter (·.2)).length,
+                                    floatNear := stats.floatNear + near.length }
           match c with
           | none => IO.println s!"O eq {x} {y} c=TypeError ha={ha} hb={hb}"; return (st, stats)
           | some c =>
@@ -352,6 +405,30 @@ def step (st : Store) (stats : Stats) (toks : List String) : IO (Store × Stats)
             else IO.println s!"O eq {x} {y} c={sign c} ha={ha} hb={hb}"
             return (st, stats)
         | _, _ => bad
+      | _, _ => bad
+    else if op = "has" then
+      match parseId a, parseSpec st b with
+      | some cid, some s =>
+        match st.get cid with
+        | some ⟨_, .table kt _ t⟩ =>
+          if s.ty ≠ kt then bad else
+          match tableGet addr t s with
+          | some v => IO.println s!"O has {cid} m=1 g={dumpScalar v}"; return (st, { stats with lookups := stats.lookups + 1 })
+          | none => IO.println s!"O has {cid} m=0 g=KeyError"; return (st, { stats with lookups := stats.lookups + 1 })
+        | some ⟨_, .tree kt _ t⟩ =>
+          if s.ty ≠ kt then bad else
+          match shGet addr t s with
+          | some v => IO.println s!"O has {cid} m=1 g={dumpScalar v}"; return (st, { stats with lookups := stats.lookups + 1 })
+          | none => IO.println s!"O has {cid} m=0 g=KeyError"; return (st, { stats with lookups := stats.lookups + 1 })
+        | some ⟨_, v⟩ =>
+          match seqItems st v with
+          | some items =>
+            if !items.all (·.ty = s.ty) then bad else
+            -- X_Mem: eq(item, obj) for each item in turn
+            IO.println s!"O has {cid} m={if items.any (fun e => keyEq addr e s) then 1 else 0} g=-"
+            return (st, { stats with lookups := stats.lookups + 1 })
+          | none => bad
+        | none => bad
       | _, _ => bad
     else if op = "heq" then
       match parseId a, parseId b with
@@ -368,7 +445,28 @@ def step (st : Store) (stats : Stats) (toks : List String) : IO (Store × Stats)
       let iscopy := op = "copy" || op = "hcopy"
       match parseId a, parseId b with
       | some y, some x =>
-        if x = y then bad else
+        if x = y && iscopy then bad else
+        if x = y then
+          -- assign(x, x): every kind but a String (whose buffer is reallocated and then copied from the old pointer)
+          match st.get x with
+          | none => bad
+          | some ox =>
+            if (match ox.val with | .sc (.str _) => true | _ => false) then bad else
+            let r := assignSelfVal addr st ox.cls ox.val
+            let (st, e) := match r with
+              | .ok v => (setVal st x v, none)
+              | .error e => (st, some e)
+            match st.get x with
+            | none => bad
+            | some nx =>
+              let cs :=
+                if nocmp then "-" else
+                match valCmp addr st nx.val nx.val with
+                | none => "TypeError"
+                | some c => if hasPtr st nx.val then (if c = 0 then "0" else "ne") else toString (sign c)
+              IO.println s!"O {op} {x} {x} {excName e} v={dumpVal st nx.val} h={hashStr st nx.val} hx={hashStr st nx.val} c={cs}"
+              return (st, { stats with copies := stats.copies + 1, selfAssigns := stats.selfAssigns + 1 })
+        else
         match st.get x with
         | none => bad
         | some ox =>
@@ -651,4 +749,5 @@ def main (args : List String) : IO Unit := do
       | some ⟨_, .seq _ ety items⟩ =>
         stats := { stats with unsized := stats.unsized + (if items.all (sizedB (tyWords ety)) then 0 else 1) }
       | _ => pure ()
+  IO.println s!"S float_pairs={stats.floatPairs} float_src_ne_model={stats.floatSrcNeModel} float_sf_ne_hw={stats.floatSfNeHw} float_near_pairs={stats.floatNear} self_assigns={stats.selfAssigns} lookups={stats.lookups}"
   IO.println s!"S eq_pairs={stats.eqPairs} eq_zero={stats.eqZero} copies={stats.copies} swaps={stats.swaps} displaced_tables={stats.displaced} tree_states={stats.treeStates} tree_not_descending={stats.treeBad} table_states={stats.tableStates} table_keys_not_distinct={stats.tableBad} unsized_states={stats.unsized} tree_relocations={stats.treeReloc} wide_moves={stats.wideMoves}"
